@@ -39,7 +39,7 @@ Fixpoint pnorm (p : positive) : positive * Z :=
 Definition znorm (z : Z) : Z * Z :=
   match z with Zpos p => let r := pnorm p in (Zpos (fst r), snd r) | _ => (0, 0)%Z end.
 
-(* integer payload -> float64 (Field.__init__ on the way back); sign handled by the flag *)
+(* integer payload -> float64 (Field.__init__ in the LEGACY reader); sign handled by the flag *)
 Definition num_conv (a : num) : num :=
   match a with
   | Fin s m e => if (e <? 0)%Z then a
@@ -107,7 +107,7 @@ Definition back_ok (model : res (fstate cval)) (obs : option (fstate cval)) : bo
   end.
 
 (* [in_domain]: the field satisfies the guards of C10_roundtrip (the harness sets it to false only
-   for the limit probes "unit is the marker text" and "label-less vector"); then the state built by
+   for the known finding "unit is the marker text"); then the state built by
    the library must pass the decidable well-formedness test (sound for the theorem's hypothesis
    wf_field: C10_wf_test_sound) and the read-back state must be the theorem's right-hand side
    [canon f] itself *)
@@ -119,7 +119,7 @@ Definition check_C10 (c : c10_case) : bool :=
   match c with
   | CRound dom f (Some file) back =>
       h5new_eqb (encode f) file && back_ok (decode cval_conv (NewFile file)) back &&
-      (if dom then wf_fieldb f && back_ok (OK (canon cval_conv f)) back else true)
+      (if dom then wf_fieldb f && back_ok (OK (canon f)) back else true)
   | CRound _ _ None _ => false
   | CRead file back => back_ok (decode cval_conv file) back
   end.
